@@ -828,3 +828,85 @@ Proof.
   rewrite pending_quiet by (apply Forall_rev; exact Hq).
   cbn [pending]. unfold registers. rewrite Es. cbn [obind]. now rewrite Z.eqb_refl.
 Qed.
+
+(* ================================================================================================ *)
+(* Routing with client-side timeouts                                                                *)
+(* ================================================================================================ *)
+Lemma rstep_reply cid h s : snd (rstep cid (rstate_after cid h) (RReply s)) = reply_outcome (rev h) s.
+Proof.
+  pose proof (rrun_reply cid h s) as R. rewrite rrun_app in R. apply app_inv_head in R.
+  fold (rstate_after cid h) in R. cbn [rrun] in R.
+  destruct (rstep cid (rstate_after cid h) (RReply s)) as [st' o]. cbn [snd]. now inversion R.
+Qed.
+
+Lemma tstate_after_snoc cid ops op :
+  tstate_after cid (ops ++ [op]) = fst (tstep cid (tstate_after cid ops) op).
+Proof. unfold tstate_after. now rewrite fold_left_app. Qed.
+
+Lemma erase_app a b : erase (a ++ b) = erase a ++ erase b.
+Proof. induction a as [|[o|k|k t] a IH]; cbn [app erase]; now rewrite ?IH. Qed.
+
+Lemma timed_out_app a b : timed_out (a ++ b) = timed_out b ++ timed_out a.
+Proof.
+  induction a as [|[o|k|k t] a IH]; cbn [app timed_out]; rewrite ?app_nil_r; try reflexivity; try exact IH;
+    now rewrite IH, app_assoc.
+Qed.
+
+(* timeouts of requests that were already written never touch the tag map *)
+Lemma tstate_erase cid hist : no_unsent hist ->
+  tstate_after cid hist = (rstate_after cid (erase hist), timed_out hist).
+Proof.
+  induction hist as [|op hist IH] using rev_ind; intros H; [reflexivity|].
+  apply Forall_app in H as [Hh Hop]. inversion Hop as [|? ? Ho _]; subst.
+  rewrite tstate_after_snoc, IH by assumption. rewrite erase_app, timed_out_app.
+  destruct op as [o|k|k t]; cbn [tstep erase timed_out app].
+  - rewrite rstate_after_snoc. destruct (rstep cid (rstate_after cid (erase hist)) o) as [m' ob]. reflexivity.
+  - now rewrite app_nil_r.
+  - contradiction.
+Qed.
+
+Lemma trun_app cid a : forall st b,
+  trun cid st (a ++ b) = trun cid st a ++ trun cid (fold_left (fun st op => fst (tstep cid st op)) a st) b.
+Proof.
+  induction a as [|op a IH]; intros st b; cbn [app trun fold_left]; [reflexivity|].
+  destruct (tstep cid st op) as [st' o] eqn:E. cbn [fst app]. now rewrite IH.
+Qed.
+
+Theorem trun_reply cid hist s : no_unsent hist ->
+  trun cid ([], []) (hist ++ [TOp (RReply s)]) =
+  trun cid ([], []) hist ++ [hide (timed_out hist) (reply_outcome (rev (erase hist)) s)].
+Proof.
+  intros H. rewrite trun_app. f_equal. fold (tstate_after cid hist). rewrite tstate_erase by assumption.
+  cbn [trun tstep]. pose proof (rstep_reply cid (erase hist) s) as R.
+  destruct (rstep cid (rstate_after cid (erase hist)) (RReply s)) as [m' ob]. cbn [snd] in R. now rewrite R.
+Qed.
+
+(* a timed-out (written) request keeps its correlation id: it is still the pending request for that id *)
+Lemma pending_after_timeout pre stack tag c mt body mid :
+  serialize c = Some (mt, body) -> Forall (quiet tag) (erase mid) ->
+  pending (rev (erase (pre ++ TOp (RSend stack tag c) :: TTimeout stack :: mid))) tag = Some (stack, mt).
+Proof.
+  intros Es Hq. rewrite erase_app. cbn [erase]. rewrite rev_app_distr. cbn [rev]. rewrite <- !app_assoc. cbn [app].
+  rewrite pending_quiet by (apply Forall_rev; exact Hq).
+  cbn [pending]. unfold registers. rewrite Es. cbn [obind]. now rewrite Z.eqb_refl.
+Qed.
+
+Lemma is_dead_in dead k : In k dead -> is_dead dead k = true.
+Proof. intros H. unfold is_dead. apply existsb_exists. exists k. split; [exact H|apply Z.eqb_refl]. Qed.
+
+(* the late reply to a request that timed out in flight is absorbed by that request: nobody sees it *)
+Theorem trun_late_reply cid pre stack tag c f mid s :
+  request_frame cid tag c = Some f ->
+  no_unsent (pre ++ TOp (RSend stack tag c) :: TTimeout stack :: mid) ->
+  Forall (quiet tag) (erase mid) ->
+  firstn 4 s = firstn 4 (skipn 8 f) ->
+  trun cid ([], []) ((pre ++ TOp (RSend stack tag c) :: TTimeout stack :: mid) ++ [TOp (RReply s)]) =
+  trun cid ([], []) (pre ++ TOp (RSend stack tag c) :: TTimeout stack :: mid) ++ [ODeadReply stack].
+Proof.
+  intros Hf Hn Hq Hs. destruct (request_frame_corr _ _ _ _ Hf) as (mt & body & Es & Ec & Ht).
+  rewrite trun_reply by assumption. f_equal. f_equal.
+  unfold reply_outcome. rewrite (reply_corr_be tag s Ht) by congruence.
+  rewrite (pending_after_timeout pre stack tag c mt body mid Es Hq). cbn [hide].
+  rewrite is_dead_in; [reflexivity|].
+  rewrite timed_out_app. cbn [timed_out]. apply in_or_app. left. apply in_or_app. right. now left.
+Qed.
